@@ -597,3 +597,106 @@ def _classify_root(w, fn, flow, r, names, extra):
   if r.kind == "empty":
     return True, False      # element of an empty literal: nothing is emitted
   raise AnalysisError("%s: cannot follow gateway argument origin %r" % (q, r))
+
+
+# ---------------------------------------------------------------------------------------------
+# views: a rule function is evaluated on the plain source and on behaviour-preserving normal
+# forms of it (see _h_C_norm.py); it is discharged when it is discharged on one of them.
+
+class _BufRun(object):
+  """Run proxy that records what a rule function reports, to be committed or dropped."""
+  def __init__(self, run):
+    self._run = run
+    self.log = []           # ("rule", args, kw) | ("ob", args, kw) | ("note", msg) | ...
+    self.errors = []
+    self.bad = 0
+
+  def rule(self, rule_id, desc, floor=None):
+    self.log.append(("rule", (rule_id, desc, floor), {}))
+    return rule_id
+
+  def ob(self, rule, site, construct, what, ok, **kw):
+    self.log.append(("ob", (rule, site, construct, what, bool(ok)), kw))
+    if not ok:
+      self.bad += 1
+    return bool(ok)
+
+  def note(self, msg):
+    self.log.append(("note", (msg,), {}))
+
+  def assume(self, msg):
+    self.log.append(("assume", (msg,), {}))
+
+  def analysed(self, fi):
+    self.log.append(("analysed", (fi,), {}))
+
+  def guard(self, func, *args, **kw):
+    try:
+      return func(*args, **kw)
+    except AnalysisError as e:
+      self.errors.append((getattr(func, "__name__", "?"), str(e)))
+      return None
+
+  def commit(self):
+    for (kind, args, kw) in self.log:
+      getattr(self._run, kind)(*args, **kw)
+    for e in self.errors:
+      self._run.errors.append(e)
+
+  def __getattr__(self, name):
+    return getattr(self._run, name)
+
+
+_WORLDS = {}
+
+
+def world_for(repo, view):
+  from . import _h_C_norm as N
+  key = (id(repo), view.name)
+  if key not in _WORLDS:
+    _WORLDS[key] = (repo, N.VWorld(repo, view))
+  return _WORLDS[key][1]
+
+
+def view_list():
+  """Views in the order they are tried. VERIF_C_VIEW=<name> (debugging aid) forces a single one."""
+  import os
+  from . import _h_C_norm as N
+  views = [N.PLAIN, N.CANON, N.INLINED]
+  force = os.environ.get("VERIF_C_VIEW")
+  if force:
+    views = [v for v in views if v.name == force] or views
+  return views
+
+
+def guarded_views(run, repo, func, *args, **kw):
+  """views(), with a rule function that cannot decide on any view recorded as an analysis error of
+  that rule function only (the other rules of the property still report their verdicts)."""
+  try:
+    views(run, repo, func, *args, **kw)
+  except AnalysisError as e:
+    run.errors.append((getattr(func, "__name__", "?"), str(e)))
+
+
+def views(run, repo, func, *args, **kw):
+  """Evaluate rule function func(run, world, *args) on each view of the sources until one
+  discharges every obligation. All views are behaviour-preserving rewritings of the same code, so
+  a discharge on any of them stands for the code as written; when none discharges, the outcome on
+  the first (plain) view is reported."""
+  first = None
+  for v in view_list():
+    buf = _BufRun(run)
+    err = None
+    try:
+      func(buf, world_for(repo, v), *args, **kw)
+    except AnalysisError as e:
+      err = e
+    if err is None and not buf.bad and not buf.errors:
+      buf.commit()
+      return
+    if first is None:
+      first = (buf, err)
+  buf, err = first
+  buf.commit()
+  if err is not None:
+    raise err
